@@ -189,15 +189,28 @@ CHECKS = {
             "pairwise_dissimilar (needs only a symmetric similarity), all_kept_while_room (reflexive+symmetric), best_of_seen(+_gt) (additionally: similar shown "
             "individuals have equal fitness - best_of_seen_needs_fit shows by a concrete history that this hypothesis is necessary); pf_never_raises, pf_mirror, "
             "pf_sorted, pf_copies, pf_antichain (any similarity, equal objective counts), pf_no_twins, pf_exact, dom_meaning) hold for every history of update batches, "
-            "every capacity >= 1, every genome type and every linearly ordered scalar; model Core/Archive.lean (two parallel lists, CPython's bisect loop, remove index "
-            "arithmetic, to_remove deleted in reverse, fresh object ids for deep copies) is diffed against deap.tools.HallOfFame/ParetoFront after every update on "
-            "exhaustive short histories from four 6-individual universes plus random histories (re-submission, in-place modification, near-tie and large-magnitude "
-            "fitnesses, batches of 11-40, capacities 16-40), and the statement is evaluated as an oracle on the real archive.",
+            "every capacity >= 1, every genome type and every linearly ordered scalar, for the pure model Core/Archive.lean (two parallel lists, CPython's bisect loop, "
+            "remove index arithmetic, to_remove deleted in reverse).  The deep-copy clause is a theorem about the heap-level model Core/ArchiveHeap.lean, whose members are "
+            "object graphs in the heap of Core/Heap.lean and whose insert is copy.deepcopy as modelled and proved for C16 (memo, class-specific hooks): "
+            "hof_/pf_/archive_members_fresh (every member is the first object of an oid range allocated by the archive's own deepcopy call and reaches only that range or "
+            "immutable objects; ranges pairwise disjoint; nothing reachable from any individual ever submitted lies in a range; hence no mutable object is shared between "
+            "a member and a submitted individual or between two members), hof_/pf_/archive_unaffected_by_writes (for every admissible continuation - heap writes through "
+            "the caller's objects at any level, new objects, further updates - every surviving member denotes at every depth the pure value it denoted; keys[j] IS "
+            "items[n-1-j].fitness, so keys mirror the members' fitness values in the heap as it is now; a continuation without update leaves members, keys and the denoted "
+            "pure archive unchanged), heap_hof_refines / heap_pf_refines (lockstep: the heap-level archive denotes the pure archive run on the populations as they were "
+            "when shown, same exceptions), heap_never_raises, heap_members_shown, and the transferred clauses heap_hof_order, heap_hof_best_of_seen, heap_pf_exact.  "
+            "Both models are diffed against deap.tools.HallOfFame/ParetoFront: the pure one after every update on exhaustive short histories from four 6-individual "
+            "universes plus random histories (re-submission, near-tie and large-magnitude fitnesses, batches of 11-40, capacities 16-40); the heap-level one on histories "
+            "with in-place modifications of submitted objects at every level between the updates (gene and inner-list edits, strategy/meta/scalar attributes, "
+            "fitness.values = ..., del fitness.values, new Fitness / strategy objects, re-filled genomes; list and set individuals), the caller's object graph being "
+            "mirrored into the model's heap as write/alloc events and members/keys compared after every update and after every round of modifications (a member "
+            "sharing anything with the caller, or a key that is not its member's own fitness object, prints differently).  The statement is evaluated as an oracle on the real archive.",
             TB + "Reading (DESIGN 6): the hall of fame identifies individuals by its similarity operator, so 'no distinct individual shown is strictly better than the "
-            "worst member' is claimed for evaluations where similar individuals carry equal fitness. The deep-copy clause is true by construction in the model "
-            "(copies_fresh/copies_frame/pf_copies hold for any copy discipline) and rests on the oracle, which after every update modifies every submitted object at "
-            "every level (nested genome, strategy, meta, fitness) and compares class, shape and attributes of the members. IEEE products of the test inputs exact.",
-            "Lean 4 proof over a hand-written model + differential correspondence + oracle"),
+            "worst member' is claimed for evaluations where similar individuals carry equal fitness. The heap-level theorems assume what C16's clone theorems assume of "
+            "the submitted individuals (acyclic, within the recursion bound, CopyOK: the side conditions of DEAP's copy hooks), an instance attribute fitness, a similarity "
+            "that is a function of the two individuals' pure values and fitnesses, and a caller that holds no reference into the archive's own copies (EvOK); that CPython's "
+            "deepcopy dispatches to the modelled hooks is the correspondence (here and in C16). IEEE products of the test inputs exact.",
+            "Lean 4 proof over hand-written models (pure archive + heap-level archive composed with C16's deepcopy model) + differential correspondence + oracle"),
     "C11": ("full",
             "Lean theorems (C11.complete_iff(+_count), typed_iff, searchSubtree_span (any Python index -len<=i<len; _span_nat/_index/_total), height_eq/height_deepest, "
             "splice_welltyped/_complete, gen_full/gen_grow/gen_half/gen_ramped, cx_closed, cxlb_closed, mutUniform_closed, nodeRepl_closed, ephemeral_closed, "
